@@ -207,6 +207,17 @@ func init() {
 		pubT := pubField.Typ.(*types.Pointer).Elem()
 		pub := p.newObject(pubT, "x25519pub")
 		id := p.newByteStore(types.Typ[types.Uint8], 8, p.tc.Const(64, 32), true, "x25519id")
+		// a freshly generated key differs from every key generated before (32 random bytes):
+		// without this the solver "finds" executions in which keys of different exchanges
+		// coincide by collision
+		{
+			idS := &SliceV{Obj: id, Off: p.tc.Const(64, 0), Len: p.tc.Const(64, 32), Cap: p.tc.Const(64, 32)}
+			f64 := p.first64(idS)
+			for _, o := range p.x25519IDs {
+				p.assume(p.tc.Not(p.tc.Eq(f64, o)))
+			}
+			p.x25519IDs = append(p.x25519IDs, f64)
+		}
 		p.storeObj(p.fieldObj(priv, "privateKey"), byteSlice(p, id, 32))
 		p.storeObj(p.fieldObj(pub, "publicKey"), byteSlice(p, id, 32))
 		p.storeObj(pubField, &PtrV{Obj: pub})
@@ -243,6 +254,11 @@ func init() {
 		lo := tc.Ite(tc.Ult(a, b), a, b)
 		hi := tc.Ite(tc.Ult(a, b), b, a)
 		s := tc.UF("x25519_shared", BV(64), lo, hi)
+		// collision-free: different key pairs give different shared secrets
+		for _, o := range p.x25519Shared {
+			p.assume(tc.Or(tc.Not(tc.Eq(o[2], s)), tc.And(tc.Eq(o[0], lo), tc.Eq(o[1], hi))))
+		}
+		p.x25519Shared = append(p.x25519Shared, [3]*Term{lo, hi, s})
 		out := p.newByteStore(types.Typ[types.Uint8], 8, tc.Const(64, 32), false, "x25519shared")
 		for i := 0; i < 8; i++ {
 			p.writeElem(out, tc.Const(64, uint64(i)), tc.Extract(s, 63-8*i, 56-8*i))
